@@ -15,7 +15,19 @@ What is compared, and how:
   the bound method on the instance; `ValueError` or not must agree, `length` and `function(thetas)` on a random grid
   within 1e-9·scale (libm `hypot`/`cos`/`sin` may differ from numpy's in the last place).  The number of vertices of the
   whole translated path is compared with the real one as a *soft* outcome (`path-same` / `path-differs` in the
-  histogram): a keep/skip decision of the filter may legitimately hang on the last bit of a sample.
+  histogram): a keep/skip decision of the filter may legitimately hang on the last bit of a sample;
+* `arc_radius`: as the other shapes (radii well above half the chord, exactly half the chord on Pythagorean chords,
+  inside the 0.01 snap tolerance, too small, zero and `-0.0`);
+* `polyline` and the whole `parametric` (its final loop included): the points handed to `self._g.move` are recorded by
+  wrapping `move` on the builder *instance* (the real `move` still runs, so the position the next vertex is converted
+  against is the real builder's), the translated functions run with `moveEffect pos p = to_absolute(p)`  - exact;
+* `spline`, control points: `CubicSpline` is replaced *in the module namespace of `gscrib.geometry.tracer`* by a recorder
+  (restored afterwards); the `thetas` grid and the three coordinate lists it receives are compared exactly with what the
+  translated `spline_args` hands to its `CubicSpline` parameter (targets with `None` components, repeated points, zero
+  offsets, `-0.0`); fewer than two distinct points: `ValueError` on both sides;
+* `spline`, whole path: the same stand-in spline on both sides (`y[0] + θ·(y[-1] − y[0]) + θ²·(y[1] − y[0])/8`); the
+  recorded moves are compared within 1e-9·scale when both sides emit the same number of them (`spline-same`), the
+  count alone is a soft outcome (`spline-differs`: `estimate_length` sums pairwise in numpy).
 """
 from __future__ import annotations
 
@@ -253,8 +265,50 @@ def op_param(rng, ck):
     ck.add(line, None, exact_text("ValueError") if outcome != "ok" else exact_rows(kept[0]))
 
 
+TRIPLES = [(3, 4), (4, 3), (6, 8), (5, 12), (-3, 4), (8, -6), (0, 10), (-10, 0), (12, 5)]
+
+
+def gen_arc_radius(rng):
+    """arc_radius: a chord from the current position and a radius around the half chord"""
+    rel = rng.random() < 0.5
+    cw = rng.random() < 0.5
+    pos = point(rng, 0.15)
+    o = [0.0 if v is None else v for v in pos]
+    res = rng.choice([0.1, 0.5, 1.0, rng.uniform(0.05, 1)])
+    exact = rng.random() < 0.4
+    if exact:                       # a Pythagorean chord on the dyadic grid: hypot is exact everywhere
+        o = [float(round(v * 4)) / 4 for v in o]
+        pos = [None if p is None else v for p, v in zip(pos, o)]
+        k = rng.choice([0.25, 0.5, 1.0, 2.0])
+        dx, dy = (k * c for c in rng.choice(TRIPLES))
+    else:
+        dx, dy = rng.uniform(-20, 20), rng.uniform(-20, 20)
+    half = math.hypot(dx, dy) / 2
+    how = rng.choice(["big", "big", "big", "half", "snap", "snap", "small", "small", "zero"])
+    if how == "big":
+        radius = half * rng.choice([1.05, 1.5, 2.0, 10.0, rng.uniform(1.05, 5)])
+    elif how == "half":
+        radius = half if exact else half * 1.05
+    elif how == "snap":
+        radius = max(half - rng.choice([0.005, 0.001, 0.0099]), 0.0)
+    elif how == "small":
+        radius = max(half - rng.choice([0.02, 0.0101, 0.05, 0.09, 1.0]), 0.0)
+    else:
+        radius = 0.0
+    if rng.random() < 0.5:
+        radius = -radius            # the long arc (and `-0.0`)
+    z = rng.choice([None, "none3", o[2], o[2] + rng.uniform(-10, 10)])
+    t_abs = [o[0] + dx, o[1] + dy]
+    target_abs = t_abs if z is None else t_abs + [None if z == "none3" else z]
+    target = [None if v is None else (v - o[i] if rel else v) for i, v in enumerate(target_abs)]
+    return {"kind": "arc_radius", "rel": rel, "cw": cw, "pos": pos, "res": res, "center": [0.0, 0.0], "target": target,
+            "turns": 1, "pitch": 1.0, "radius": radius, "how": how}
+
+
 def gen_shape(rng):
-    kind = rng.choice(["arc", "arc", "circle", "helix", "thread", "spiral"])
+    kind = rng.choice(["arc", "arc", "circle", "helix", "thread", "spiral", "arc_radius", "arc_radius", "arc_radius"])
+    if kind == "arc_radius":
+        return gen_arc_radius(rng)
     rel = rng.random() < 0.5
     cw = rng.random() < 0.5
     pos = point(rng, 0.15)
@@ -309,6 +363,8 @@ def op_shape(rng, ck):
     try:
         if kind == "arc":
             tr.arc(target, center)
+        elif kind == "arc_radius":
+            tr.arc_radius(target, case["radius"])
         elif kind == "circle":
             tr.circle(center)
         elif kind == "helix":
@@ -330,7 +386,7 @@ def op_shape(rng, ck):
         orig = g2.trace._filter_segments
         g2.trace._filter_segments = lambda pts: kept.append(orig(pts)) or kept[-1]
         try:
-            getattr(g2.trace, kind)(*{"arc": (target, center), "circle": (center,), "helix": (target, center, case["turns"]),
+            getattr(g2.trace, kind)(*{"arc": (target, center), "arc_radius": (target, case.get("radius")), "circle": (center,), "helix": (target, center, case["turns"]),
                                       "thread": (target, case["pitch"]), "spiral": (target, case["turns"])}[kind])
             n_path = len(kept[0])
         except ValueError:
@@ -340,8 +396,8 @@ def op_shape(rng, ck):
     th = sorted(rng.choice([0.0, 1.0, 0.5, rng.random()]) for _ in range(6))
     line = (f"shape kind={kind} cw={int(case['cw'])} rel={int(case['rel'])} pos={pl(case['pos'])} res={bits(case['res'])} "
             f"target={pl(case['target'])} tlen={len(case['target'])} center={pl(case['center'])} turns={case['turns']} "
-            f"pitch={bits(case['pitch'])} th={','.join(bits(t) for t in th)}")
-    ck.count(f"{kind}-{outcome}")
+            f"pitch={bits(case['pitch'])} radius={bits(case.get('radius', 0.0))} th={','.join(bits(t) for t in th)}")
+    ck.count(f"{kind}-{outcome}" + (f"-{case['how']}" if kind == "arc_radius" else ""))
     if outcome != "ok":
         ck.add(line, None, exact_text("ValueError"))
         return
@@ -365,7 +421,149 @@ def op_shape(rng, ck):
     ck.add(line, None, cmp)
 
 
-OPS = [(op_direction, 1), (op_core, 3), (op_filter, 3), (op_param, 2), (op_shape, 4)]
+def record_moves(g):
+    """wrap `move` on the builder instance: the points the tracer hands to it, in order (the real move still runs)"""
+    moves = []
+    orig = g.move
+
+    def move(point=None, **kw):
+        moves.append(tuple(float(v) for v in point))
+        return orig(point, **kw)
+
+    g.move = move
+    return moves
+
+
+def gen_targets(rng, dup_p=0.35):
+    """targets for polyline / spline: 2- or 3-tuples with `None` components, repeated points, zero offsets, -0.0"""
+    n = rng.choice([0, 1, 2, 3, 4, 6])
+    out = []
+    for _ in range(n):
+        if out and rng.random() < dup_p:
+            out.append(list(out[-1]))
+            continue
+        w = rng.choice([2, 3])
+        q = [None if rng.random() < 0.25 else rng.choice([0.0, -0.0, 1.0, rng.randint(-64, 64) / 8, num(rng)]) for _ in range(w)]
+        out.append(q)
+    return out
+
+
+def op_poly(rng, ck):
+    rel = rng.random() < 0.5
+    axes = point(rng, 0.25)
+    ps = gen_targets(rng, 0.15)
+    g = builder(axes, rel)
+    moves = record_moves(g)
+    g.trace.polyline([tuple(q) for q in ps])
+    ck.count(f"polyline-{'rel' if rel else 'abs'}-{min(len(ps), 3)}")
+    ck.add(f"poly rel={int(rel)} axes={pl(axes)} pts={','.join(pl(q) for q in ps)}", None, exact_rows(moves))
+
+
+def op_pmoves(rng, ck):
+    a, d, e = gen_quad(rng)
+    f = quad_fn(a, d, e)
+    res = rng.choice([0.1, 0.5, 1.0, rng.uniform(0.05, 2)])
+    rel = rng.random() < 0.5
+    axes = point(rng, 0.25)
+    g = builder(axes, rel, res=res)
+    length = rng.choice([0.0, -1.0, float(g.trace.estimate_length(100, f)), rng.uniform(0.01, 30), 4.0])
+    moves = record_moves(g)
+    try:
+        g.trace.parametric(f, float(length))
+        outcome = "ok"
+    except ValueError:
+        outcome = "ValueError"
+    ck.count(f"parametric-moves-{'rel' if rel else 'abs'}-{outcome}")
+    line = f"pmoves rel={int(rel)} axes={pl(axes)} res={bits(res)} len={bits(length)} a={pl(a)} d={pl(d)} e={pl(e)}"
+    ck.add(line, None, exact_text("ValueError") if outcome != "ok" else exact_rows(moves))
+
+
+class _Stop(Exception):
+    pass
+
+
+def op_controls(rng, ck):
+    import gscrib.geometry.tracer as tm
+
+    rel = rng.random() < 0.5
+    axes = [None if rng.random() < 0.25 else rng.choice([0.0, 1.0, rng.randint(-64, 64) / 8]) for _ in range(3)]
+    ps = gen_targets(rng)
+    if rel:                     # offsets: make zero offsets (a repeated point) likely
+        ps = [[None if v is None else rng.choice([v, 0.0, 0.0, -0.0]) for v in q] for q in ps]
+    g = builder(axes, rel)
+    seen = []
+    real = tm.CubicSpline
+    tm.CubicSpline = lambda x, y: seen.append(([float(v) for v in x], [float(v) for v in y])) or (lambda th: np.zeros(len(th)))
+    g.trace.parametric = lambda function, length, **kw: None
+    try:
+        g.trace.spline([tuple(q) for q in ps])
+        outcome = "ok"
+    except ValueError:
+        outcome = "ValueError"
+    finally:
+        tm.CubicSpline = real
+        del g.trace.parametric
+    line = f"controls rel={int(rel)} axes={pl(axes)} pts={','.join(pl(q) for q in ps)}"
+    if outcome != "ok":
+        ck.count("spline-controls-ValueError")
+        ck.add(line, None, exact_text("ValueError"))
+        return
+    grid = seen[0][0]
+    controls = list(zip(seen[0][1], seen[1][1], seen[2][1]))
+    same_grid = all(s_[0] == grid for s_ in seen) and len(seen) == 3
+    ck.count(f"spline-controls-{'dropped' if len(controls) < len(ps) + 1 else 'all'}")
+    want = f"grid={','.join(bits(v) for v in grid)} controls={rows(controls)}" if same_grid else "three different grids"
+    ck.add(line, None, exact_text(want))
+
+
+def op_spline(rng, ck):
+    import gscrib.geometry.tracer as tm
+
+    rel = rng.random() < 0.5
+    axes = point(rng, 0.25)
+    ps = gen_targets(rng, 0.2)
+    res = rng.choice([0.1, 0.5, 1.0, rng.uniform(0.05, 2)])
+    g = builder(axes, rel, res=res)
+    moves = record_moves(g)
+    real = tm.CubicSpline
+
+    def fake(x, y):
+        a, d, e = y[0], y[-1] - y[0], (y[1] - y[0]) * 0.125
+        return lambda th: a + th * d + th * th * e
+
+    tm.CubicSpline = fake
+    try:
+        g.trace.spline([tuple(q) for q in ps])
+        outcome = "ok"
+    except ValueError:
+        outcome = "ValueError"
+    finally:
+        tm.CubicSpline = real
+    line = f"spline rel={int(rel)} axes={pl(axes)} res={bits(res)} pts={','.join(pl(q) for q in ps)}"
+    ck.count(f"spline-{outcome}")
+    if outcome != "ok":
+        ck.add(line, None, exact_text("ValueError"))
+        return
+    scale = max([1.0] + [abs(v) for m in moves for v in m])
+
+    def cmp(rec, moves=moves, scale=scale):
+        if rec == "ValueError":
+            return (f"{len(moves)} moves", rec)
+        got = unrows(rec)
+        if len(got) != len(moves):
+            ck.count("spline-differs")
+            return None
+        for r, s_ in zip(got, moves):
+            if any(not close(a, b, 1e-9 * scale) for a, b in zip(r, s_)):
+                return (str(moves[:6]), str(got[:6]))
+        ck.count("spline-same")
+        return None
+
+    ck.add(line, None, cmp)
+
+
+OPS = [(op_direction, 1), (op_core, 3), (op_filter, 3), (op_param, 2), (op_shape, 5), (op_poly, 2), (op_pmoves, 2),
+       (op_controls, 3), (op_spline, 1)]
 
 
 def validate(rng, cases: int) -> dict:
